@@ -126,7 +126,7 @@ def gen_runs(tier):
         ("p1", dict(pool=1, npools=0, dup=2, batch=3, nlocal=1, c0s=[0, 1, 2], late=True)),
         ("p2", dict(pool=2, npools=0, dup=0, batch=2, nlocal=0, c0s=[0], late=False)),
         ("p2dup", dict(pool=2, npools=0 if not q else 60, dup=2, batch=4, nlocal=0, c0s=[0], late=False)),
-        ("p2loc", dict(pool=2, npools=16 if q else 150, dup=1, batch=3, nlocal=1, c0s=[0, 1, 2], late=True)),
+        ("p2loc", dict(pool=2, npools=10 if q else 90, dup=1, batch=3, nlocal=1, c0s=[0, 1, 2], late=True)),
         ("p3", dict(pool=3, npools=0 if not q else 500, dup=0, batch=3, nlocal=0, c0s=[0], late=False)),
         ("p3dup", dict(pool=3, npools=10 if q else 120, dup=1, batch=4, nlocal=0, c0s=[0], late=False)),
         ("p3loc", dict(pool=3, npools=4 if q else 40, dup=0, batch=3, nlocal=1, c0s=[0, 2], late=True)),
@@ -411,9 +411,10 @@ def judge_cluster(ctx, want, scen, windows=False):
     kinds = C06_KINDS if want == "C06" else C13_KINDS
     nbad = 0
     for s in scen:
-        if s.get("broken"):
-            raise vlib.Inconclusive("cluster scenario %s broke: %s" % (s["id"], s["broken"]))
         vs = [v for v in s["viols"] if v["kind"] in kinds]
+        if s.get("broken") and not vs:
+            ctx.broken = getattr(ctx, "broken", []) + ["cluster scenario %s broke: %s" % (s["id"], s["broken"])]
+            continue
         if not vs:
             continue
         nbad += 1
@@ -459,6 +460,7 @@ def run_cluster_layer(ctx, want):
     nrand = 60 if ctx.tier != "thorough" else 600
     scen = run_cluster(ctx, HOLD_SCRIPTS, nrand, "masked", steps=45)
     nbad = judge_cluster(ctx, want, scen)
+    scen = [s for s in scen if not s.get("broken")]
     stats = {}
     for s in scen:
         for k, v in (s.get("stats") or {}).items():
@@ -496,7 +498,22 @@ def run_cluster_layer(ctx, want):
         elif not direct:
             raise vlib.Inconclusive("trace of scenario %s is not a behaviour of AspenKV (event %s: %s) although no property-level "
                                     "symptom was observed: model drift" % (s["id"], tv.get("offset"), json.dumps(tv.get("event"))[:600]))
+    if getattr(ctx, "broken", None) and not ctx.violations:
+        raise vlib.Inconclusive("; ".join(ctx.broken[:3]))
     return len(scen), accepted, stats, tv_rows, nbad
+
+
+def guarded(ctx, body):
+    """Run a check body; an inconclusive condition met AFTER a real-code violation was recorded
+    does not hide the violation."""
+    try:
+        return body(ctx)
+    except vlib.Inconclusive as e:
+        if ctx.violations:
+            ctx.notes.append("also inconclusive: %s" % str(e)[:300])
+            return ctx.finish("model_checking", {"states": 0, "transitions": 0, "traces_validated_against_impl": 0,
+                                                 "samples": [], "exhaustive": False, "notes": ctx.notes[:20]}, [])
+        raise
 
 
 def replay(ctx, path, want):
